@@ -27,11 +27,11 @@ type in struct {
 }
 
 type out struct {
-	val  int
-	ok   bool
-	set  string // canonical rendering of a set / sequence result
-	h    int
-	n    int
+	val int
+	ok  bool
+	set string // canonical rendering of a set / sequence result
+	h   int
+	n   int
 }
 
 func render(m map[string]int) string {
